@@ -18,12 +18,18 @@ def check(run):
         for line in (c.get("log") or "").splitlines():
             if line.startswith("panic:") or line.startswith("fatal error:") or "runtime error" in line:
                 first = line.strip(); break
+        if c["kind"] == "hang":
+            run.violation("hang:" + c["label"].split("@")[0],
+                          "the server never answered request item %d (%s): %s" % (c["item"], c["label"], (c.get("log") or "")[:160]),
+                          dict(item=c["item"], label=c["label"], kind=c["kind"], stderr=c.get("log", "")[-3000:],
+                               how="work/bin/harness c11child -seed %d -tier %s -out <dir> -from %d" % (run.seed, run.tier, c["item"])))
+            continue
         run.violation("crash:" + c["label"].split("@")[0],
                       "the server process died while handling request item %d (%s): %s" % (c["item"], c["label"], first or "process exited"),
                       dict(item=c["item"], label=c["label"], kind=c["kind"], stderr=c.get("log", "")[-3000:],
                            raw_request_hex=c.get("raw_request_hex"),
                            how="work/bin/harness c11child -seed %d -tier %s -out <dir> -from %d" % (run.seed, run.tier, c["item"])))
-    run.obligation("no request made the server process die (child-process observation)", not crashes)
+    run.obligation("no request made the server process die or left it unanswered (child-process observation, 45 s watchdog per request)", not crashes)
     _batches.fill_cov(run, stats,
         "requests executed one by one in a child process: a base request (well-formed invocation + delegated chain of depth 3 + "
         "session with account delegation and attestation) in which one token (7 positions) gets one of 33 field alterations "
